@@ -164,6 +164,42 @@ def check(ctx):
                     ctx.violation("indexed adapters: " + why, {"aset": aset, "read": r, "observed": list(res), "why": why, "indexed": True})
     finally:
         logging.disable(logging.NOTSET)
+    # ---- 4. the tolerance is the one configured: adapters that come out of the specification parser next to a file:
+    # specification with its own error rate still tolerate what the global -e says
+    import os
+    from cutadapt.parser import make_adapters_from_specifications
+    sc = os.path.join(buildimpl.scratch_root(), "c01spec")
+    os.makedirs(sc, exist_ok=True)
+    try:
+        for _ in range(ctx.size(40, 600)):
+            rng = ctx.rng
+            L = rng.choice([10, 12, 16, 20])
+            seq2 = U.rand_seq(rng, L, "ACGT")
+            grate = rng.choice([0.0, 0.1, 0.15])
+            path = os.path.join(sc, "ad.fasta")
+            with open(path, "w") as f:
+                f.write(">f1\n%s\n" % U.rand_seq(rng, 9, "ACGT"))
+            flag = rng.choice(["back", "front", "anywhere"])
+            params = dict(max_errors=grate, min_overlap=3, read_wildcards=False, adapter_wildcards=True, indels=rng.random() < 0.7)
+            try:
+                objs = make_adapters_from_specifications([(flag, "file:%s;e=%s" % (path, rng.choice(["0.3", "0.4", "3"]))), (flag, "later=" + seq2)], params)
+            except Exception as e:
+                ctx.violation("specification parser raises %s" % type(e).__name__, {"why": "%s: %s" % (type(e).__name__, e), "spec": True})
+                continue
+            ad2 = objs[-1]
+            for _r in range(6):
+                core_ = U.mutate(rng, seq2, rng.choice([1, 2, 3, 4]), "ACGT", "s")
+                read = U.rand_seq(rng, rng.choice([0, 3, 8]), "ACGT") + core_ + U.rand_seq(rng, rng.choice([0, 3, 8]), "ACGT")
+                mt_ = ad2.match_to(read)
+                ctx.count(("spec-seq", seq2, grate, read), mt_ is not None)
+                dist["after a file: specification/" + ("match" if mt_ is not None else "none")] = dist.get("after a file: specification/" + ("match" if mt_ is not None else "none"), 0) + 1
+                if mt_ is not None and mt_.errors > int(grate * (mt_.astop - mt_.astart)):
+                    ctx.violation("errors exceed the tolerance configured with -e (adapter given after a file: specification)",
+                                  {"global_rate": grate, "adapter": seq2, "read": read, "observed": list(U.match_tuple(mt_)), "spec": True,
+                                   "why": "%d errors over %d aligned adapter bases at -e %s" % (mt_.errors, mt_.astop - mt_.astart, grate)})
+    finally:
+        import shutil
+        shutil.rmtree(sc, ignore_errors=True)
     mod2 = core.model_run(lines) if model_ok else [None] * len(lines)
     bad2 = core.diff_cases(ctx, "match_to", meta, impl_out, mod2, None)
     for i in bad2[:10]:
@@ -182,6 +218,9 @@ def check(ctx):
 
 def replay(doc):
     r = doc["replay"]
+    if r.get("spec"):
+        print("specification-sequence case (see the replay file):", r.get("why"))
+        return 1
     if r.get("indexed"):
         from . import c08
         from .. import buildimpl as B
